@@ -59,7 +59,10 @@ def write_cfg(path, spec=None, init=None, next_=None, constants=None, invariants
     if constants:
         L.append("CONSTANTS")
         for k, v in constants.items():
-            L.append(f"  {k} = {tla_value(v)}")
+            if isinstance(v, str) and v.startswith("<-"):
+                L.append(f"  {k} <- {v[2:].strip()}")      # substitution by a definition of the module
+            else:
+                L.append(f"  {k} = {tla_value(v)}")
     for i in invariants:
         L.append(f"INVARIANT {i}")
     for p in properties:
